@@ -1,7 +1,10 @@
 import AITB.Model.Proto
 import AITB.Model.Guard
 import AITB.Model.ModelState
-open AITB AITB.Guard AITB.MS
+import AITB.Model.CoopDyn
+import AITB.Model.AmdpHull
+import AITB.Model.Loader
+open AITB AITB.Guard AITB.MS AITB.Sampling
 
 namespace DrvC06
 
@@ -42,8 +45,11 @@ def stAgree (c : XRat → XRat → Bool) (m i : St) : Bool :=
   all2 i.S i.A (fun s a => c (get2 m.R s a) (get2 i.R s a)) &&
   all3 i.A i.S i.O (fun a s o => c (get3 m.Om a s o) (get3 i.Om a s o))
 
-/-- slack used by the property clause: the library tolerance plus 1e-9 for double rounding of the sum -/
-def slack : Rat := tol + eps
+/-- the documented tolerance ("off by rounding": 1e-6, Utils/Core.hpp).  The property clauses are evaluated with THIS number, not with
+    the regenerated `tol` the model follows (equal today: theorem `tolerance_is_documented`), so that a widened library tolerance
+    yields a failing input (a stored row that is no distribution) and not only a broken obligation -/
+def docTol : Rat := 1 / 1000000
+def slack : Rat := docTol + eps
 
 def rowsDistB (t : Tab3) : Bool := t.all fun m => m.all (rowDistB slack)
 
@@ -145,6 +151,25 @@ def srcP (pomdp : Bool) : P SrcP := do
     let O ← P.nat; let om ← tab3 S A O
     return ⟨⟨S, A, d, T, R⟩, O, om⟩
   else return ⟨⟨S, A, d, T, R⟩, 0, []⟩
+
+/-- `acc kb ko pomdp state | generic view` : the generic interface of an object returns what its tables hold
+    (`srcOf`: getTransitionProbability(s,a,s1) = T[a](s,s1), getExpectedReward(s,a,s1) = R(s,a), getObservationProbability(s1,a,o) = O[a](s1,o)) -/
+def accLine : P String := do
+  let kb ← rep; let ko ← rep; let pomdp ← P.bool
+  let st ← state; P.bar
+  let sp ← srcP pomdp; P.eof
+  let comp := (if pomdp then obsCls ko else baseCls kb)
+  let m := srcOf st
+  let v : Verdict := { tag := "acc" }
+  let v := v.failIf (sp.src.S != st.S || sp.src.A != st.A || (pomdp && sp.O != st.O)) s!"{comp}::getS sizes_disagree"
+  let v := v.failIf (!(xeq sp.src.disc st.disc)) s!"{comp}::getDiscount views_disagree"
+  let v := v.failIf (!(all3 st.S st.A st.S (fun s a s1 => xeq (get3 sp.src.T s a s1) (get3 m.T s a s1))))
+            s!"{baseCls kb}::getTransitionProbability accessor_disagrees_with_table"
+  let v := v.failIf (!(all3 st.S st.A st.S (fun s a s1 => xeq (get3 sp.src.R s a s1) (get3 m.R s a s1))))
+            s!"{baseCls kb}::getExpectedReward accessor_disagrees_with_table"
+  let v := v.failIf (pomdp && !(all3 st.S st.A st.O (fun s1 a o => xeq (get3 sp.om s1 a o) (get3 st.Om a s1 o))))
+            s!"{obsCls ko}::getObservationProbability accessor_disagrees_with_table"
+  return v.render
 
 /-- `ctor kb ko pomdp which args | err [state]` -/
 def ctorLine : P String := do
@@ -325,6 +350,11 @@ def amdpLine : P String := do
   let v := v.failIf (!(T.all fun m => m.all (fun row => rowDistB eps row && row.all (fun x => match x with | .fin q => decide (0 ≤ q) | _ => false))))
              s!"{comp} row_not_distribution"
   let v := v.failIf (!(R.all fun row => row.all isFin)) s!"{comp} reward_not_finite"
+  -- … and every reward is an average of the POMDP's rewards: inside the interval spanned by 0 and the expected rewards of the
+  -- beliefs that fell into the bucket (theorems amdp_dense_reward_in_hull / amdp_sparse_reward_in_hull; the sparse variant
+  -- is only within the tolerance of it)
+  let hslack : Rat := if sparse then tol + eps else eps
+  let v := v.failIf (!(all2 S1 A (fun s a => rewardHullB hslack evs s a (get2 R s a)))) s!"{comp} reward_outside_hull"
   -- the discretizer sends every belief inside the augmented state space, to a state whose base component is the
   -- belief's most likely state (theorem discretize_lt covers the arithmetic; the entropy term is not modelled)
   let v := v.failIf (bs.any (fun (_, i) => decide (i ≥ S0 * buckets))) s!"AMDP::makeDiscretizer index_out_of_range"
@@ -337,6 +367,45 @@ def amdpLine : P String := do
   let v := v.diffIf (!(all3 A S1 S1 (fun a s s1 => xclose (.fin (amdpT evs S1 a s s1)) (get3 T a s s1)))) s!"{comp} transitions"
   let v := v.diffIf (!(all2 S1 A (fun s a =>
       xclose (if sparse then amdpRSparse evs S1 s a else amdpRDense guarded evs S1 s a) (get2 R s a)))) s!"{comp} rewards"
+  return v.render
+
+/-- `load kb pre | cut d T R | err failbit post` : `operator>>(istream&, Model&)` / `(…, SparseModel&)` -/
+def loadLine : P String := do
+  let kb ← rep; let pre ← state; P.bar
+  let cut ← P.nat; let d ← P.x; let t ← tab3 pre.A pre.S pre.S; let r ← tab2 pre.S pre.A; P.bar
+  let err ← P.tok; let failbit ← P.bool; let post ← state; P.eof
+  let comp := baseCls kb ++ "::operator>>"
+  if illTab (kb == .sparse) t then return "skip ill_conditioned" else
+  -- the reader stops at the first token it cannot read: a cut, or a non-finite number (printed as nan / inf)
+  let finT := t.all (fun m => m.all (fun row => row.all isFin))
+  let finR := r.all (fun row => row.all isFin)
+  let parsed : Parsed :=
+    if cut == 3 || !(isFin d) then .nothing
+    else if cut == 1 || !finT then .disc d
+    else if cut == 2 || !finR then .discT d t
+    else .all d t r
+  let (ms, mo) := load kb pre parsed
+  let iout : LoadOut := if err != "none" then .threw else if failbit then .failbit else .loaded
+  let v : Verdict := { tag := "load_" ++ (match iout with | .loaded => "loaded" | .failbit => "failbit" | .threw => "threw") }
+  let v := v.failIf (err != "none" && err != "invalid_argument") s!"{comp} wrong_exception_class {err}"
+  let v := v.failIf (iout != .loaded && !(post == pre)) s!"{comp} failed_load_changed_object"
+  let v := v.failIf (iout == .loaded && !(inUnitB post.disc)) s!"{comp} {discKind post.disc} {post.disc}"
+  let v := v.failIf (iout == .loaded && !(rowsDistB post.T)) s!"{comp} stored_row_not_distribution"
+  let v := v.failIf (iout == .loaded && !(post.T == t && post.R == r && xeq post.disc d)) s!"{comp} loaded_table_not_supplied"
+  let v := v.diffIf (mo != iout) s!"{comp} outcome model={repr mo} impl={repr iout}"
+  let v := v.diffIf (mo == iout && !(stAgree xeq ms post)) s!"{comp} state_after_load"
+  return v.render
+
+/-- `amdp0 kind via | err bucketsAfter S1` : AMDP asked for zero entropy buckets -/
+def amdp0Line : P String := do
+  let kind ← P.tok; let via ← P.tok; P.bar
+  let err ← P.tok; let after ← P.nat; let _S1 ← P.nat; P.eof
+  let comp := if via == "ctor" then "AMDP::AMDP" else "AMDP::setEntropyBuckets"
+  let v : Verdict := { tag := "amdp0_" ++ kind ++ "_" ++ via }
+  -- a model over S·0 = 0 states is no MDP: the only acceptable outcome is a rejection that leaves the object unchanged
+  let v := v.failIf (err == "none") s!"{comp} accepts_zero_entropy_buckets"
+  let v := v.failIf (err != "none" && err != "invalid_argument") s!"{comp} wrong_exception_class {err}"
+  let v := v.failIf (err != "none" && via != "ctor" && after != 3) s!"{comp} failed_call_changed_object"
   return v.render
 
 def tagP : P (List Nat) := P.nats
@@ -409,6 +478,64 @@ def coopLine : P String := do
   let v := v.diffIf (maccept == threw) s!"{comp} outcome model={errOfBool (!maccept)} impl={err}"
   return v.render
 
+
+/-- all tuples of a factor space, last factor fastest (the order the harness enumerates in) -/
+def factorsP (sp : List Nat) : P (List Nat) := P.rep P.nat sp.length
+
+/-- `coopdyn | S A graph | nT (rows cols entries)* | nB (tag actionTag rows cols values)* | ids | nQ queries` — see harness -/
+def coopdynLine : P String := do
+  P.bar
+  let S ← P.nats; let A ← P.nats; let g ← graphP S A; P.bar
+  let mats ← P.list (do let r ← P.nat; let c ← P.nat; let e ← tab2 r c; pure (Mat.mk r c e)); P.bar
+  let bases ← P.list (do
+      let t ← tagP; let atg ← tagP; let r ← P.nat; let c ← P.nat
+      let vals ← P.rep (P.rep P.q c) r
+      pure (BasisV.mk t atg r c vals)); P.bar
+  let ids ← (List.range S.length).mapM (fun _ => do
+      let sz ← P.nat; let psz ← P.nat
+      let rows ← P.rep (do let pid ← P.nat; let aid ← P.nat; let id2 ← P.nat; let part ← P.nat; pure (pid, aid, id2, part)) sz
+      pure (sz, psz, rows)); P.bar
+  let nS := (enumSpace S).length
+  let queries ← P.list (do
+      let s ← factorsP S; let a ← factorsP A; let viaCopy ← P.bool; let rew ← P.q
+      let pr ← P.rep (do let p ← P.q; let ppf ← P.q; pure (p, ppf)) nS
+      let k ← P.nat; let subK ← P.rep P.nat k; let subV ← P.rep P.nat k; let pm ← P.q
+      pure (s, a, viaCopy, rew, pr, subK.zip subV, pm))
+  P.eof
+  let comp := "Factored::MDP::CooperativeModel"
+  let n := S.length
+  let v : Verdict := { tag := "coopdyn" }
+  -- the object exists, so the constructor accepted: the model must accept the same arguments, on a graph satisfying the invariant
+  let v := v.diffIf (!(coopAccepts false g mats (bases.map BasisV.shape))) s!"{comp}::ctor accepted_arguments_rejected_by_model"
+  let v := v.failIf (!(graphOK g)) "DDNGraph::push graph_invariant_broken"
+  -- row-id arithmetic: getIds(feature, j) / getId(feature, parentId, actionId) / getPartialSize
+  let v := (List.range n).foldl (fun (v : Verdict) i =>
+      let (sz, psz, rows) := ids.getD i (0, 0, [])
+      let ps := (g.parents.getD i default).toPS
+      let v := v.diffIf (sz != ddnSize S ps || psz != ps.features.length) s!"DDNGraph::getSize feature={i} model={ddnSize S ps} impl={sz}"
+      (List.range rows.length).foldl (fun (v : Verdict) j =>
+        let (pid, aid, id2, part) := rows.getD j (0, 0, 0, 0)
+        let v := v.failIf (id2 != j) s!"DDNGraph::getIds row_id_roundtrip feature={i} j={j} ids=({pid},{aid}) getId={id2}"
+        let v := v.failIf (!(decide (aid < ps.features.length) && decide (pid < part))) s!"DDNGraph::getIds parent_id_outside_block feature={i} j={j} ids=({pid},{aid}) partialSize={part}"
+        let v := v.diffIf (ddnIdsOfRow S ps j != (pid, aid)) s!"DDNGraph::getIds feature={i} j={j} model={(ddnIdsOfRow S ps j)} impl=({pid},{aid})"
+        v.diffIf (ddnPartialSize S ps aid != part) s!"DDNGraph::getPartialSize feature={i} actionId={aid} model={ddnPartialSize S ps aid} impl={part}") v) v
+  -- dynamics and rewards
+  let jslack : Rat := docTol * n + eps
+  let v := queries.foldl (fun (v : Verdict) (s, a, viaCopy, rew, pr, sub, pm) =>
+      let who := if viaCopy then comp ++ "(copy)" else comp
+      let mrow := jointRow g mats s a
+      let irow := pr.map (·.1)
+      let v := v.failIf (!(jointDistB jslack irow)) s!"{who}::getTransitionProbability joint_row_not_distribution s={s} a={a} sum={irow.sum}"
+      let v := v.failIf (!((mrow.zip irow).all (fun (m, i) => closeQ eps m i)) || mrow.length != irow.length)
+                s!"{who}::getTransitionProbability transition_not_supplied s={s} a={a}"
+      let v := v.failIf (!(pr.all (fun (p, ppf) => closeQ eps p ppf)))
+                s!"DDN::getTransitionProbability(PartialFactors) transition_not_supplied s={s} a={a}"
+      let mm := marginalProb g mats s a sub
+      let v := v.failIf (!(closeQ eps mm pm)) s!"DDN::getTransitionProbability(PartialFactors) marginal_not_supplied s={s} a={a} sub={sub} model={mm} impl={pm}"
+      let mr := coopReward g bases s a
+      v.failIf (!(closeQ eps mr rew)) s!"{who}::getExpectedReward reward_not_supplied s={s} a={a} model={mr} impl={rew}") v
+  return v.render
+
 /-- `guards` : static look at the generated guard table (no implementation output involved): one verdict -/
 def guardsLine : P String := do
   P.eof
@@ -425,12 +552,16 @@ def handle (toks : List String) : String :=
   let r := match toks with
     | "op" :: rest => P.run opLine rest
     | "ctor" :: rest => P.run ctorLine rest
+    | "acc" :: rest => P.run accLine rest
+    | "load" :: rest => P.run loadLine rest
     | "isprob" :: rest => P.run isprobLine rest
     | "disc" :: rest => P.run discLine rest
     | "amdp" :: rest => P.run amdpLine rest
+    | "amdp0" :: rest => P.run amdp0Line rest
     | "lm" :: rest => P.run lmLine rest
     | "push" :: rest => P.run pushLine rest
     | "coop" :: rest => P.run coopLine rest
+    | "coopdyn" :: rest => P.run coopdynLine rest
     | "guards" :: rest => P.run guardsLine rest
     | _ => none
   r.getD "bad-op"
